@@ -473,9 +473,19 @@ ASSUME = ["values >= 1 (0 is outside the codes' domain; the release build writes
 TRUSTED = ["writer buffer modelled as (completed bytes, byte under the cursor, zeros): relies on memset + monotone bitPos (EliasBits.v header)"]
 
 
+# *_src theorems (C03: the MaxBytes bounds, C04: floorLog2 / GammaBits): about the Gallina renderings of the leaf
+# functions regenerated from the current source on every run (gen/c2coq_leaf.py -> coq/gen/Src_leaf_elias.v),
+# proved equal to the hand model in LeafSrcElias.v
+SRC_PROPS = {"C03": ["Properties_C03_elias_src"], "C04": ["Properties_C04_elias_src"]}
+SRC_TRUSTED = ["gen/c2coq.py + CSem.v for the *_src theorems (C-to-Gallina translator, clang 14 typed AST -> "
+               "coq/gen/Src_leaf_elias.v via gen/c2coq_leaf.py; subset and assumptions in the translator's docstring; "
+               "LP64, two's complement); the renderings are tied to the compiled C by the translator, not by proof"]
+
+
 def _part(prop, gen, oracles, rule):
-    return dict(coq_props=["Properties_%s_elias" % prop], files=FILES, rule=rule, generate=gen, oracles=oracles,
-                classify=classify, search=search, assumptions=ASSUME, trusted_base=TRUSTED,
+    return dict(coq_props=["Properties_%s_elias" % prop] + SRC_PROPS.get(prop, []), files=FILES, rule=rule,
+                generate=gen, oracles=oracles, classify=classify, search=search, assumptions=ASSUME,
+                trusted_base=TRUSTED + (SRC_TRUSTED if prop in SRC_PROPS else []),
                 configs_quick=["pinned", "O0"])
 
 
